@@ -35,6 +35,27 @@ CHECKS["C10"] = ("bounded symbolic execution of projections.py, simplicial_compl
 CHECKS["C12"] = ("bounded symbolic execution of measures/directed/* on a symbolic directed hypergraph (presence bits), solver-chosen bound max_hyperedge_size and symbolic degree filter",
     "Every sub-family of the candidate directed hyperedges x every bound m: signature cells, the three reciprocities (definition, range, zero for empty sizes, exact<=strong<=weak) and role degrees compared with brute force.",
     "z3, CrossHair builtin models; m is realised by numpy/range (enumerated by the solver) (DESIGN 3/C12)", "3 C12")
+CHECKS["C09"] = ("bounded symbolic execution of linalg.py on a dense object-matrix stand-in for scipy.sparse and a LabelEncoder model: presence bits x symbolic weights, symbolic order, symbolic keep_isolated_nodes",
+    "Index/label plumbing and algebra of linalg.py (incidence, weighted incidence, adjacency, by-order variants, order-d Laplacian incl. symmetry and zero row sums, dual adjacency, tensor, temporal adjacency) decided entry by entry for every sub-family of the candidate hyperedges, all integer weights and all integer orders; non-contiguous and string labels.",
+    "scipy.sparse kernels and sklearn LabelEncoder trusted to implement the semantics modelled by the stand-ins (validated concretely against the real libraries on every run) (DESIGN 2.4, 3/C09)", "3 C09")
+CHECKS["C11"] = ("solver-driven exhaustion of a symbolic hypergraph (presence bits) through the real motif enumerators, compared with a brute-force census; order 3 under CrossHair's tracer, order 4 natively on each solver-chosen hypergraph",
+    "Every sub-family of the candidate hyperedges (13 / 11 / 13 candidates) for orders 3 and 4, incl. relabelling + reversed insertion in the same path, ignored large hyperedges, class tables as ground facts; directed census: canonical representatives, invariance, ignored large hyperedges. The only solver variables are the presence Booleans (no numeric input exists).",
+    "z3/CrossHair path enumeration; brute-force reference; the technique degenerates to exhaustive enumeration of the stated families here (DESIGN 3/C11)", "3 C11")
+CHECKS["C13"] = ("bounded symbolic execution of the real configuration models with every random draw a solver variable (randomness stand-ins), bounded number of chain steps",
+    "All outcomes of np.random.randint/rand (undirected) and random.randint/choice (directed) within 1-2 steps on 6 (5) small inputs: degrees never increase; preserved with the hyperedge count; size multiset preserved; size/order-restricted variants leave the other hyperedges intact.",
+    "random-source contracts as modelled in verif/randstub.py; bounded `range` stand-in for the directed model; redraw allowance stated (DESIGN 2.4, 3/C13)", "3 C13")
+CHECKS["C14"] = ("bounded symbolic execution of the real random generators with every random draw, the seed, activities and corr_target as solver variables (randomness stand-ins)",
+    "random_hypergraph / uniform, add_random_edge(s), random_shuffle(_all_orders), HOADmodel, scale_free_hypergraph (incl. defaults): structural contract of the property asserted on every outcome of the draws for the stated small parameter settings; seed discipline decided for all integer seeds.",
+    "random-source contracts (verif/randstub.py); numpy's sampling distributions outside; a seeded CPython generator assumed deterministic (DESIGN 3/C14)", "3 C14")
+CHECKS["C18"] = ("bounded symbolic execution of simplicial_contagion with symbolic rates, initial state and every uniform draw; presence-bit enumeration of connected hypergraphs through the real random-walk code with a solver-chosen walk",
+    "Contagion: range, first value, monotonicity for mu=0 / beta=beta_D=0 for ALL rates in [0,1] and all draws within T, exact synchronous trajectory for rates in {0,1}. Random walk: transition matrix, stationary state, density propagation on every connected sub-family (concrete float algebra, tolerances), walk support for all outcomes of np.random.choice.",
+    "np.random stand-ins; floats modelled as reals; random-walk linear algebra executed concretely per enumerated hypergraph (DESIGN 3/C18)", "3 C18")
+CHECKS["C19"] = ("bounded symbolic execution of filter_hypergraph on Hypergraph/Temporal/Multiplex recipes with symbolic metadata and criteria values, compared with the model filter through the container batteries",
+    "filter half of C19: keep/remove x keep_edges x node/edge/both criteria, all metadata values and allowed values unbounded symbolic integers, attributes missing on some items. get_svh/get_svc are outside the technique (pandas + scipy.stats) and are not claimed.",
+    "reference models of C01/C03/C04; recipes stated in evidence (DESIGN 3/C19)", "3 C19")
+CHECKS["C20"] = ("bounded symbolic execution of s_centralities.py on a symbolic hypergraph (presence bits) with symbolic s, compared with networkx on independently built projections",
+    "s-betweenness/closeness of hyperedges for all integer s >= 1, node versions, and the four temporal averaged versions on every sub-family of the candidates; labels include strings containing 'E'. Sub-hypergraph centrality, CEC/HEC are outside the technique (LAPACK / float power iterations) and are not claimed.",
+    "networkx centralities as specification on an independent graph, tolerance 1e-9 (DESIGN 3/C20)", "3 C20")
 NOT_YET = {}
 NA = {
  "C17": "HypergraphMT.fit / HySC.fit are in-place float numpy, LAPACK eig, sklearn KMeans and scipy.optimize on data-dependent masks with transcendental statements (EM ascent, log-likelihood agreement); nothing can be kept symbolic, so solver-based checking of the real code does not apply (DESIGN 3/C17).",
